@@ -39,3 +39,4 @@ func Harness_VMW_34_two_assets() { wild = true; Harness_VM_34_two_assets(); wild
 func Harness_VMW_35_send_all_overdraft_then_overdraft() { wild = true; Harness_VM_35_send_all_overdraft_then_overdraft(); wild = false }
 func Harness_VMW_36_two_balance_vars_one_account() { wild = true; Harness_VM_36_two_balance_vars_one_account(); wild = false }
 func Harness_VMW_37_number_var_from_json() { wild = true; Harness_VM_37_number_var_from_json(); wild = false }
+func Harness_VMW_38_vars_from_metadata() { wild = true; Harness_VM_38_vars_from_metadata(); wild = false }
